@@ -485,6 +485,111 @@ def gen_op(ctx, ver, actor, weights=None):
             'misc': gen_misc}[k](ctx, ver, actor)
 
 
+BOUNDARY_INTS = [0, 1, -1, 7, 2 ** 31 - 1, -2 ** 31, 65536]
+BOUNDARY_TEXT = ['', ' ', 'x' * 1000, u'\u00e9\u4e2d', '0', '01', ' 1',
+                 '-1', '1.0', u'\u0661']
+
+
+def decorate(ctx, op):
+    """Replace ONE field of a generated operation by a boundary value of the
+    same TTLV type (the request stays well-typed): empty / very long /
+    non-ASCII / number-like text, extreme and zero integers, empty and long
+    byte strings, an element repeated in a list, an object named twice."""
+    r = ctx.rng
+    name = op['op']
+    c = []
+    at = None
+    for key in ('attrs', 'common', 'private', 'public'):
+        if op.get(key):
+            at = op[key]
+            break
+    if at:
+        c += ['attr_text', 'attr_int', 'attr_dup', 'attr_index']
+    if 'uid' in op and op.get('uid') is not None:
+        c += ['uid_text', 'uid_text']
+    if op.get('uids'):
+        c += ['uids_repeat', 'uid_in_list']
+    if name == 'Locate':
+        c += ['locate_max', 'locate_offset']
+    if op.get('data') is not None:
+        c += ['data_empty', 'data_long']
+    if op.get('iv') is not None:
+        c += ['iv_odd']
+    if name == 'DeriveKey':
+        c += ['derive_iter', 'derive_salt']
+    if name == 'Revoke':
+        c += ['revoke_msg']
+    if name == 'Query':
+        c += ['query_many']
+    if name == 'GetAttributes':
+        c += ['names_many']
+    if isinstance(op.get('obj'), dict) and op['obj'].get('value') is not None:
+        c += ['value_empty', 'value_long']
+    if not c:
+        return op
+    k = r.choice(c)
+    if k == 'attr_text':
+        cand = [a for a in at if a['n'] in (
+            'Name', 'Object Group', 'Operation Policy Name',
+            'Application Specific Information', 'Contact Information')]
+        if cand:
+            a = r.choice(cand)
+            v = r.choice(BOUNDARY_TEXT)
+            if a['n'] in ('Name',):
+                a['v'] = [v, a['v'][1]]
+            elif a['n'] == 'Application Specific Information':
+                a['v'] = [a['v'][0], v] if r.random() < 0.5 else \
+                    [v, a['v'][1]]
+            else:
+                a['v'] = v
+    elif k == 'attr_int':
+        cand = [a for a in at if a['n'] in (
+            'Cryptographic Length', 'Cryptographic Usage Mask')]
+        if cand:
+            a = r.choice(cand)
+            # lengths stay small: a huge length is a (real) request to
+            # generate that much key material
+            a['v'] = r.choice(BOUNDARY_INTS) if a['n'] != \
+                'Cryptographic Length' else r.choice([0, 1, -1, 7, 100])
+    elif k == 'attr_dup':
+        at.append(dict(r.choice(at)))
+    elif k == 'attr_index':
+        r.choice(at)['i'] = r.choice([0, 1, 5, 2 ** 31 - 1, -1])
+    elif k == 'uid_text':
+        op['uid'] = r.choice(BOUNDARY_TEXT + ['x' * 300])
+    elif k == 'uids_repeat':
+        op['uids'] = list(op['uids']) + [op['uids'][0]]
+    elif k == 'uid_in_list':
+        op['uids'] = list(op['uids'])
+        op['uids'][r.randrange(len(op['uids']))] = r.choice(BOUNDARY_TEXT)
+    elif k == 'locate_max':
+        op['max'] = r.choice(BOUNDARY_INTS)
+    elif k == 'locate_offset':
+        op['offset'] = r.choice(BOUNDARY_INTS)
+    elif k == 'data_empty':
+        op['data'] = ''
+    elif k == 'data_long':
+        op['data'] = ctx.rbytes(r.choice([4096, 65536 + 3]))
+    elif k == 'iv_odd':
+        op['iv'] = ctx.rbytes(r.choice([0, 1, 15, 17, 64]))
+    elif k == 'derive_iter':
+        op.setdefault('params', {})['iter'] = r.choice(BOUNDARY_INTS)
+    elif k == 'derive_salt':
+        op.setdefault('params', {})['salt'] = r.choice(['', ctx.rbytes(300)])
+    elif k == 'revoke_msg':
+        op['msg'] = r.choice(BOUNDARY_TEXT)
+    elif k == 'query_many':
+        op['funcs'] = [1, 2, 3, 4, 5, 6, 1, 1]
+    elif k == 'names_many':
+        op['names'] = ['Name', 'Name', 'State', 'x-custom', '', 'Name']
+    elif k == 'value_empty':
+        op['obj']['value'] = ''
+    elif k == 'value_long':
+        op['obj']['value'] = ctx.rbytes(r.choice([1024, 8192]))
+    op['boundary'] = k
+    return op
+
+
 def gen_request(ctx, actor=None, ver=None, max_items=3, weights=None,
                 p_batch=0.3):
     r = ctx.rng
@@ -496,6 +601,8 @@ def gen_request(ctx, actor=None, ver=None, max_items=3, weights=None,
     if r.random() < p_batch:
         n = r.randint(2, max_items)
     items = [gen_op(ctx, tuple(ver), actor, weights) for _ in range(n)]
+    if r.random() < 0.12:
+        decorate(ctx, r.choice(items))
     if items[-1]['op'] in ('Create', 'Register', 'CreateKeyPair',
                            'DeriveKey') and r.random() < 0.35 \
             and ctx.objs and items[-1].get('label'):
